@@ -6,6 +6,7 @@ import Mathlib.LinearAlgebra.Matrix.Notation
 import BronVerif.Model.LinAlg
 import BronVerif.Lemmas.GaussJordanSolve
 import BronVerif.Lemmas.GaussJordanDet
+import BronVerif.Lemmas.GaussJordanMatrix
 import BronVerif.Lemmas.GaussJordanInverse
 import BronVerif.Lemmas.FpField
 import Mathlib.Tactic.NormNum.Prime
@@ -89,6 +90,47 @@ theorem solveLeft_complete_vecMul (m : Mat F) (n : ℕ) (r : List F) (hn : numCo
     ¬ ∃ x : List F, x.length = m.length ∧ vecMul x m = r := by
   subst hn; exact solveLeft_complete m _ r hr h
 
+/-! ### the same in Mathlib's `Matrix` vocabulary (shape of DESIGN Appendix A) -/
+
+/-- `SolveRight` returned `x`  ⟹  `M *ᵥ x = b` -/
+theorem solveRight_sound_matrix (m : Mat F) (n : ℕ) (b : List F)
+    (hm : ∀ row ∈ m, row.length = n) (hb : b.length = m.length) (x : List F)
+    (h : solveRight m n b = some x) :
+    (toMat m.length n m).mulVec (toVec n x) = toVec m.length b := by
+  obtain ⟨hx, hs⟩ := solveRight_sound m n b hm hb x h
+  exact (mulVec_eq_iff m n x b hx hb).mp hs
+
+/-- `SolveRight` failed  ⟹  no vector `v` at all satisfies `M *ᵥ v = b` -/
+theorem solveRight_complete_matrix (m : Mat F) (n : ℕ) (b : List F)
+    (hm : ∀ row ∈ m, row.length = n) (hb : b.length = m.length)
+    (h : solveRight m n b = none) :
+    ¬ ∃ v : Fin n → F, (toMat m.length n m).mulVec v = toVec m.length b := by
+  rintro ⟨v, hv⟩
+  refine solveRight_complete m n b hm hb h ⟨List.ofFn v, by simp, ?_⟩
+  rw [mulVec_eq_iff m n _ b (by simp) hb, toVec_ofFn]
+  exact hv
+
+/-- `SolveLeft` returned `x`  ⟹  `x ᵥ* M = r` -/
+theorem solveLeft_sound_matrix (m : Mat F) (n : ℕ) (r : List F) (hr : r.length = n) (x : List F)
+    (h : solveLeft m n r = some x) :
+    Matrix.vecMul (toVec m.length x) (toMat m.length n m) = toVec n r := by
+  have h1 := solveRight_sound_matrix (transposeN m n) m.length r (transposeN_width m n)
+    (by simp [transposeN, hr]) x h
+  have hl : (transposeN m n).length = n := by simp [transposeN]
+  rw [hl, toMat_transposeN, Matrix.mulVec_transpose] at h1
+  exact h1
+
+/-- `SolveLeft` failed  ⟹  no `v` with `v ᵥ* M = r` exists (so the target is outside the row span) -/
+theorem solveLeft_complete_matrix (m : Mat F) (n : ℕ) (r : List F) (hr : r.length = n)
+    (h : solveLeft m n r = none) :
+    ¬ ∃ v : Fin m.length → F, Matrix.vecMul v (toMat m.length n m) = toVec n r := by
+  have h1 := solveRight_complete_matrix (transposeN m n) m.length r (transposeN_width m n)
+    (by simp [transposeN, hr]) h
+  have hl : (transposeN m n).length = n := by simp [transposeN]
+  rw [hl] at h1
+  rintro ⟨v, hv⟩
+  exact h1 ⟨v, by rw [toMat_transposeN, Matrix.mulVec_transpose]; exact hv⟩
+
 /-- **Determinant**: the model's `det` (mirror of `SquareMatrix.Determinant`: forward elimination
 with first-non-zero pivot search, sign flip on row swap, product of the pivots, `0` as soon as a
 column has no pivot) equals Mathlib's `Matrix.det` of the same square matrix. -/
@@ -150,6 +192,16 @@ variable {p : ℕ} [Fact p.Prime]
 
 /-- the field structure on `Fp p` computes with the executable operations: the solver taken at
 the `Field`-derived notation *is* the solver the driver runs (definitional equality) -/
+theorem det_inverse_Fp_instances :
+    (@det (Fp p) Fp.instMul Fp.instSub Fp.instNegOfNeZeroNat Fp.instInvOfNeZeroNat
+        Fp.instOfNatOfNeZeroNat Fp.instOfNatOfNeZeroNat Fp.instDecidableEq =
+      @det (Fp p) instField.toMul instField.toSub instField.toNeg instField.toInv Zero.toOfNat0
+        One.toOfNat1 Fp.instDecidableEq) ∧
+    (@inverse (Fp p) Fp.instMul Fp.instSub Fp.instInvOfNeZeroNat Fp.instOfNatOfNeZeroNat
+        Fp.instOfNatOfNeZeroNat Fp.instDecidableEq =
+      @inverse (Fp p) instField.toMul instField.toSub instField.toInv Zero.toOfNat0 One.toOfNat1
+        Fp.instDecidableEq) := ⟨rfl, rfl⟩
+
 theorem solveAugmented_Fp_instances :
     @solveAugmented (Fp p) Fp.instMul Fp.instSub Fp.instInvOfNeZeroNat Fp.instOfNatOfNeZeroNat
       Fp.instDecidableEq =
@@ -178,6 +230,7 @@ theorem solveRight_complete_Fp (m : Mat (Fp p)) (n : ℕ) (b : List (Fp p))
 example : solveRight (F := Fp 7) [[1, 2], [3, 1]] 2 [3, 2] = some [3, 0] := by decide +kernel
 example : solveRight (F := Fp 7) [[1, 2], [2, 4]] 2 [3, 0] = none := by decide +kernel
 example : (3 : Fp 7)⁻¹ = 5 := by decide +kernel
+example : det ([[0, 2], [3, 4]] : Mat (Fp 7)) = 1 := by decide +kernel
 end Fp
 
 end BronVerif.Props.C20
